@@ -26,6 +26,8 @@ type c07Parse struct {
 	// Between: another header is parsed (and its payload read) between Parse
 	// returning and the use of its results
 	Between bool `json:"between,omitempty"`
+	// ReadFirst > 0: that many payload bytes are taken with Read calls, the rest with io.Copy
+	ReadFirst int `json:"readFirst,omitempty"`
 }
 
 // c07Other is the header parsed in between.
@@ -67,7 +69,22 @@ func c07CheckParse(c c07Parse, st *stats.Run, count bool) error {
 	if err := hdr.Marshal(&buf); err != nil {
 		return pbt.Failf("C07/marshal-error", "Marshal of parsed header failed: %v", err)
 	}
-	rest, rerr := io.ReadAll(payload)
+	var rest []byte
+	var rerr error
+	if c.ReadFirst > 0 {
+		first := make([]byte, c.ReadFirst)
+		n, e := io.ReadFull(payload, first)
+		rest = first[:n]
+		if e == nil {
+			var tail bytes.Buffer
+			_, rerr = io.Copy(&tail, payload)
+			rest = append(rest, tail.Bytes()...)
+		} else if e != io.EOF && e != io.ErrUnexpectedEOF {
+			rerr = e
+		}
+	} else {
+		rest, rerr = io.ReadAll(payload)
+	}
 	if rerr != nil {
 		return pbt.Failf("C07/payload-read", "reading payload: %v", rerr)
 	}
@@ -293,7 +310,7 @@ func genHeader(t *rapid.T, maxStanzas int) refage.Header {
 }
 
 func genDelivery(t *rapid.T) hx.Delivery {
-	mode := rapid.SampledFrom([]string{"whole", "one", "pieces", "bufio", "bufio", "dataeof"}).Draw(t, "delivery")
+	mode := rapid.SampledFrom([]string{"whole", "one", "pieces", "bufio", "bufio", "dataeof", "ospipe", "file"}).Draw(t, "delivery")
 	d := hx.Delivery{Mode: mode}
 	if mode == "pieces" || mode == "dataeof" || mode == "bufio" {
 		d.Pieces = rapid.SliceOfN(rapid.IntRange(1, 200), 0, 5).Draw(t, "pieces")
@@ -472,7 +489,7 @@ func TestC07(t *testing.T) {
 		if rapid.IntRange(0, 4).Draw(t, "texttail") == 0 {
 			tail = []byte("-> x\n--- " + c07MAC + "\n")
 		}
-		return c07Parse{Input: append(in, tail...), Delivery: genDelivery(t), Between: rapid.IntRange(0, 2).Draw(t, "between") == 0}
+		return c07Parse{Input: append(in, tail...), Delivery: genDelivery(t), Between: rapid.IntRange(0, 2).Draw(t, "between") == 0, ReadFirst: rapid.SampledFrom([]int{0, 0, 1, 16, 100, 4096}).Draw(t, "readFirst")}
 	}, func(c c07Parse) error { return c07CheckParse(c, s.St, true) })
 
 	// B: well-formed headers marshal to text that parses back to an equal header
